@@ -116,6 +116,60 @@ class CallCtx:
         return self.ex.get_field(self.st, self.ex.self_ref, name)
 
 
+_sym_cache = {}
+
+
+def free_syms(e):
+    """names of uninterpreted constants and functions in e (cached by term id)"""
+    k = e.get_id()
+    r = _sym_cache.get(k)
+    if r is not None:
+        return r
+    out = set()
+    seen = set()
+    stack = [e]
+    while stack:
+        x = stack.pop()
+        i = x.get_id()
+        if i in seen:
+            continue
+        seen.add(i)
+        if z3.is_quantifier(x):
+            stack.append(x.body())
+            continue
+        if z3.is_app(x):
+            if x.decl().kind() == z3.Z3_OP_UNINTERPRETED:
+                out.add(x.decl().name())
+            stack.extend(x.children())
+    r = frozenset(out)
+    if len(_sym_cache) > 200000:
+        _sym_cache.clear()
+    _sym_cache[k] = r
+    return r
+
+
+def relevant(pc, cond):
+    """Constraint independence: the conjuncts of pc transitively sharing symbols with cond.
+    Sound for feasibility because pc itself is kept satisfiable."""
+    want = set(free_syms(cond))
+    items = [(c, free_syms(c)) for c in pc]
+    chosen = []
+    changed = True
+    rest = items
+    while changed:
+        changed = False
+        nxt = []
+        for c, fs in rest:
+            if fs & want:
+                chosen.append(c)
+                want |= fs
+                changed = True
+            else:
+                nxt.append((c, fs))
+        rest = nxt
+    return chosen
+
+
 def zt(v):
     """z3 term of simple value."""
     if isinstance(v, V) and hasattr(v, 'z'):
@@ -218,7 +272,7 @@ class Engine:
         return ref
 
     def note_mapkey(self, s, m, kz):
-        s.heap['__mapkeys__'] = tuple(s.heap.get('__mapkeys__', ())) + ((str(m.val), kz), (str(m.dom), kz))
+        s.heap['__mapkeys__'] = tuple(s.heap.get('__mapkeys__', ())) + ((m.val.get_id(), kz), (m.dom.get_id(), kz))
 
     def oblige(self, st, kind, goal, node=None, note=''):
         line = getattr(node, 'lineno', None)
@@ -239,7 +293,7 @@ class Engine:
         self.solver_checks += 1
         s = z3.Solver()
         s.set('timeout', 2000)
-        s.add(*st.pc)
+        s.add(*relevant(st.pc, cond))
         s.add(cond)
         return s.check() != z3.unsat
 
@@ -249,18 +303,45 @@ class Engine:
         if c is not None:
             return [(st, c)]
         out = []
-        if self.feasible(st, cond):
+        pos = self.feasible(st, cond)
+        if pos:
             s1 = st.fork()
             s1.assume(cond)
             s1.trace.append((getattr(node, 'lineno', 0), True))
+            self.narrow(s1, cond)
             out.append((s1, True))
         ncond = z3.Not(cond)
-        if self.feasible(st, ncond):
+        # the path condition is satisfiable (invariant), so if cond is infeasible its negation is feasible
+        if not pos or self.feasible(st, ncond):
             s2 = st.fork()
             s2.assume(ncond)
             s2.trace.append((getattr(node, 'lineno', 0), False))
+            self.narrow(s2, cond)
             out.append((s2, False))
         return out
+
+    def narrow(self, s, cond):
+        """Optional locals whose None-ness is decided by the branch just taken become plain values."""
+        text = None
+        for name, v in list(s.env.items()):
+            if not isinstance(v, VOpt) or not z3.is_const(v.isnone):
+                continue
+            if text is None:
+                text = cond.sexpr()
+            if v.isnone.decl().name() not in text:
+                continue
+            sol = z3.Solver()
+            sol.set('timeout', 1000)
+            sol.add(*relevant(s.pc, v.isnone))
+            sol.push()
+            sol.add(v.isnone)
+            if sol.check() == z3.unsat:
+                s.env[name] = v.val
+                continue
+            sol.pop()
+            sol.add(z3.Not(v.isnone))
+            if sol.check() == z3.unsat:
+                s.env[name] = VNone
 
     # ----------------------------------------------------------- truthiness
     def truthy(self, st, v):
@@ -289,6 +370,8 @@ class Engine:
                 return z3.BoolVal(True)
             return self.truthy(st, cell)
         if isinstance(v, VOpaque):
+            if v.sortname != 'Any' and v.sortname not in self.spec.falsy_sorts:
+                return z3.BoolVal(True)     # ordinary objects (transports, keys, futures) are truthy
             f = z3.Function('truthy_' + v.sortname, opaque_sort(v.sortname), BoolS)
             return f(v.z)
         if isinstance(v, (VTag, VExc)):
@@ -297,6 +380,17 @@ class Engine:
             f = z3.Function('nonempty_' + str(v.dom.sort()), v.dom.sort(), BoolS)
             return f(v.dom)
         raise Unsupported(f'truthiness of {v!r}')
+
+    def unopt(self, s, v, node):
+        """Use an Optional where a value is required: TypeError when None -> list[(state, V|Raised)]"""
+        if v is VNone:
+            return [(s, Raised(VExc('TypeError')))]
+        if not isinstance(v, VOpt):
+            return [(s, v)]
+        out = []
+        for s2, isn in self.branch(s, v.isnone, node):
+            out.append((s2, Raised(VExc('TypeError'))) if isn else (s2, v.val))
+        return out
 
     def deref(self, st, v):
         if isinstance(v, VRef) and not isinstance(st.heap[v.addr], Record):
@@ -574,6 +668,18 @@ class Engine:
         return None
 
     def binop(self, s, op, a, b, node):
+        if isinstance(a, VOpt) or isinstance(b, VOpt):
+            res = []
+            for s1, a1 in self.unopt(s, a, node):
+                if isinstance(a1, Raised):
+                    res.append((s1, a1))
+                    continue
+                for s2, b1 in self.unopt(s1, b, node):
+                    if isinstance(b1, Raised):
+                        res.append((s2, b1))
+                    else:
+                        res.extend(self.binop(s2, op, a1, b1, node))
+            return res
         a, b = self.deref(s, a), self.deref(s, b)
         ia, ib = self.as_int(a), self.as_int(b)
         if ia is not None and ib is not None:
@@ -742,6 +848,19 @@ class Engine:
             if isinstance(base, Raised):
                 out.append((s, base))
                 continue
+            if isinstance(base, VOpt) or base is VNone:
+                for s1, b1 in self.unopt(s, base, e):
+                    if isinstance(b1, Raised):
+                        out.append((s1, b1))
+                    else:
+                        out.extend(self.subscript_of(s1, b1, e))
+                continue
+            out.extend(self.subscript_of(s, base, e))
+        return out
+
+    def subscript_of(self, s, base, e):
+        out = []
+        for _once in (0,):
             braw = base
             base = self.deref(s, base)
             if isinstance(e.slice, ast.Slice):
@@ -834,12 +953,14 @@ class Engine:
     def map_value(self, s, m, kz):
         if m.vt.kind == 'obj':
             # objects stored in symbolic maps: one heap object per map (per distinct key term)
-            key = ('mapobj', str(m.val), str(simp(kz)))
+            key = ('mapobj', m.val.get_id(), simp(kz).get_id())
             cache = s.heap.setdefault('__mapobjs__', {})
             if key not in cache:
                 cache = dict(cache)
                 cache[key] = self.new_object(s, m.vt.name, 'mapobj')
                 s.heap['__mapobjs__'] = cache
+                s.heap['__mapobj_keys__'] = tuple(s.heap.get('__mapobj_keys__', ())) + \
+                    ((m.val.get_id(), kz, cache[key].addr),)
             return cache[key]
         return from_z3(z3.Select(m.val, kz), m.vt)
 
@@ -887,7 +1008,7 @@ class Engine:
             return self.ev(e.args[1], st)
         out = []
         # evaluate receiver (if method call) then arguments
-        if isinstance(f, ast.Attribute):
+        if isinstance(f, ast.Attribute) and not self.is_module_ref(f.value, st):
             recvs = self.ev(f.value, st)
         else:
             recvs = [(st, None)]
@@ -905,6 +1026,21 @@ class Engine:
                 out.extend(self.do_call(s2, key, recv, args, kwargs, e))
         return out
 
+    def is_module_ref(self, node, st):
+        """`os`, `time`, `inspect`, ... : a plain `import x` name (or dotted), not shadowed by a local"""
+        while isinstance(node, ast.Attribute):
+            node = node.value
+        if not isinstance(node, ast.Name) or node.id in st.env or node.id in self.spec.globals:
+            return False
+        if not hasattr(self.mod, '_plain_imports'):
+            names = set()
+            for n in self.mod.tree.body:
+                if isinstance(n, ast.Import):
+                    for a in n.names:
+                        names.add((a.asname or a.name).split('.')[0])
+            self.mod._plain_imports = names
+        return node.id in self.mod._plain_imports or node.id in ('int', 'bytes', 'str', 'dict', 'bytearray')
+
     def do_call(self, s, key, recv, args, kwargs, node):
         from . import builtins_model as bm
         # Optional receiver -> AttributeError when None
@@ -919,18 +1055,33 @@ class Engine:
         stub = self.find_stub(key, recv, s)
         if stub is not None:
             return self.apply_stub(s, stub, key, recv, args, kwargs, node)
-        if key in self.spec.inline or (isinstance(recv, VRef) and recv is not None and
-                                       ('self.' + key.rsplit('.', 1)[-1]) in self.spec.inline and
-                                       recv.addr == self.self_ref.addr):
-            return self.inline_call(s, key, recv, args, kwargs, node)
+        target = self.find_inline(key, recv, s)
+        if target is not None:
+            return self.inline_call(s, key, recv, args, kwargs, node, target)
+        # constructor of a class whose __init__ is inlined from source
+        if recv is None and (key + '.__init__') in self.spec.inline:
+            ref = s.alloc(Record(key), key)
+            res = []
+            for s2, r in self.inline_call(s, key, ref, args, kwargs, node, self.spec.inline[key + '.__init__']):
+                res.append((s2, r if isinstance(r, Raised) else ref))
+            return res
         r = bm.call_builtin(self, s, key, recv, args, kwargs, node)
         if r is not None:
             return r
         # exception constructors
-        name = key.rsplit('.', 1)[-1] if recv is None or isinstance(recv, VTag) else None
         if recv is None and (extract.is_subclass(key, 'BaseException')):
             return [(s, self.make_exc(s, key, args, kwargs))]
         raise Unsupported(f'call to {key} at line {node.lineno}: no stub, not inlined, not a modelled builtin')
+
+    def find_inline(self, key, recv, s):
+        inl = self.spec.inline
+        if key in inl:
+            return inl[key]
+        if '.' in key and isinstance(recv, VRef) and isinstance(s.heap.get(recv.addr), Record):
+            k2 = f'{s.heap[recv.addr].cls}.{key.rsplit(".", 1)[1]}'
+            if k2 in inl:
+                return inl[k2]
+        return None
 
     def make_exc(self, s, cls, args, kwargs):
         attrs = {}
@@ -969,14 +1120,8 @@ class Engine:
             res.append((s2, Raised(o.exc) if o.exc is not None else o.ret))
         return res
 
-    def inline_call(self, s, key, recv, args, kwargs, node):
+    def inline_call(self, s, key, recv, args, kwargs, node, target):
         """Symbolically execute the callee's real body (small helpers such as is_client)."""
-        meth = key.rsplit('.', 1)[-1]
-        target = self.spec.inline.get(key) if isinstance(self.spec.inline, dict) else None
-        if target is None and isinstance(self.spec.inline, dict):
-            target = self.spec.inline.get('self.' + meth)
-        if target is None:
-            raise Unsupported(f'inline target for {key} unknown')
         modname, qual = target
         mod = extract.get_module(modname)
         fn = mod.get_function(qual)
@@ -986,6 +1131,8 @@ class Engine:
         sub.mod, sub.func = mod, fn
         sub.loop_ordinals = {}
         sub._number_loops(fn)
+        # loops of inlined callees are never matched against the caller's loop specs
+        sub.loop_ordinals = {k: (qual, v) for k, v in sub.loop_ordinals.items()}
         saved_env = s.env
         s.env = {}
         params = [a.arg for a in fn.args.args]
